@@ -5,6 +5,7 @@
 import CircuitModel.Logic
 import CircuitModel.Spec.Circuit
 import CircuitModel.CircuitOps
+import CircuitModel.Spec.C03
 namespace CM
 open SpecCircuit
 
@@ -184,6 +185,7 @@ def closerKind (kvs : List (String × String)) : CloserKind :=
 
 /-- bookkeeping the verdicts need about the REAL run so far -/
 structure RealBook where
+  c03 : SpecC03.Book := { sleep := 0, half := 0, req := 0 }
   openBefore : Bool := false
   lastNotif : Option Bool := none
   conc : Int := 0
@@ -224,8 +226,9 @@ partial def runCircuitOps (ck : CloserKind) (c : Circ OState CState) (cfgSpec : 
             (joinVerdicts [("C01", verdictC01 cfgSpec adm pv op ro), ("C05", verdictC05 cfgSpec adm pv op ro),
               ("C06", verdictC06 cfgSpec op ro), ("C07", verdictC07 cfgSpec op ro), ("C08", verdictC08 cfgSpec rb.openBefore pv op ro),
               ("C09", verdictC09 cfgSpec rb.lastNotif ro.emits ro.openAfter ro.fanOk),
-              ("C10", verdictC10 cfgSpec rb.openBefore rb.conc rb.concFb op ro), ("C12", verdictC12 ro.emits ro.readings)],
-             { openBefore := ro.openAfter, lastNotif := ((notifs ro.emits).getLast?).orElse fun _ => rb.lastNotif, conc := ro.conc, concFb := ro.concFb })
+              ("C10", verdictC10 cfgSpec rb.openBefore rb.conc rb.concFb op ro), ("C12", verdictC12 ro.emits ro.readings),
+              ("C03", if ck == .hystrix then SpecC03.verdictExec rb.c03 cfgSpec rb.openBefore ro else none)],
+             { c03 := rb.c03.afterExec rb.openBefore ro, openBefore := ro.openAfter, lastNotif := ((notifs ro.emits).getLast?).orElse fun _ => rb.lastNotif, conc := ro.conc, concFb := ro.concFb })
         runCircuitOps ck c' cfgSpec rb' rest (acc.push (fmtExecObs mo ++ "\t" ++ spec))
     | some "open" | some "close" =>
       let isOpenOp := toks.head? == some "open"
@@ -245,7 +248,7 @@ partial def runCircuitOps (ck : CloserKind) (c : Circ OState CState) (cfgSpec : 
           let c08 : Option String := if cfgSpec.forcedClosed ∧ (notifs ev).contains true then some "ForcedClosed circuit was opened by OpenCircuit" else none
           (joinVerdicts [("C09", (verdictC09 cfgSpec rb.lastNotif ev realOpen fan).orElse fun _ => noop.orElse fun _ => effect),
                          ("C03", if !isOpenOp then effect else none), ("C08", c08), ("C12", verdictC12 ev rd)],
-           { rb with openBefore := realOpen, lastNotif := ((notifs ev).getLast?).orElse fun _ => rb.lastNotif })
+           { rb with c03 := ev.foldl SpecC03.Book.onEmit rb.c03, openBefore := realOpen, lastNotif := ((notifs ev).getLast?).orElse fun _ => rb.lastNotif })
         | _, _ => ("-", { rb with openBefore := realOpen })
       runCircuitOps ck c' cfgSpec rb' rest (acc.push (m ++ "\t" ++ spec))
     | some "setcfg" =>
@@ -269,7 +272,9 @@ partial def runCircuitOps (ck : CloserKind) (c : Circ OState CState) (cfgSpec : 
       let c' := { c with closer := match c.closer with
         | .hystrix h => .hystrix { h with tc := { h.tc with sleep := kvInt kvs "sleep" h.tc.sleep, allow := kvInt kvs "half" h.tc.allow }, required := kvInt kvs "req" h.required }
         | o => o }
-      runCircuitOps ck c' cfgSpec { rb with openBefore := realOpen } rest (acc.push (s!"open={fmtBool (isOpenEff c')}" ++ "\t-"))
+      let b3 := rb.c03
+      let b3 := { b3 with sleep := kvInt kvs "sleep" b3.sleep, half := kvInt kvs "half" b3.half, req := kvInt kvs "req" b3.req, cfgChanged := true }
+      runCircuitOps ck c' cfgSpec { rb with c03 := b3, openBefore := realOpen } rest (acc.push (s!"open={fmtBool (isOpenEff c')}" ++ "\t-"))
     | some "openercfg" =>
       let c' := { c with opener := match c.opener with
         | .hystrix h => .hystrix { h with pct := kvInt kvs "pct" h.pct, vol := kvInt kvs "vol" h.vol }
@@ -280,6 +285,7 @@ partial def runCircuitOps (ck : CloserKind) (c : Circ OState CState) (cfgSpec : 
 
 def suiteCircuit (kvs : List (String × String)) (lines : List (String × String)) : List String :=
   let c := initCirc kvs
-  (runCircuitOps (closerKind kvs) c c.cfg {} lines #[]).toList
+  let b3 : SpecC03.Book := { sleep := kvInt kvs "c_sleep" 5000000000, half := kvInt kvs "c_half" 1, req := kvInt kvs "c_req" 1 }
+  (runCircuitOps (closerKind kvs) c c.cfg { c03 := b3 } lines #[]).toList
 
 end CM
